@@ -370,9 +370,28 @@ func runVer1(c *core.Ctx) {
 		nTrue++
 		c.CountSites(1)
 		got := an.PathOf(r.Results[0])
-		c.Check(got == wantCall, nil, fname(c, ver), "return#may-be-true/value", P.Pos(r.Pos()),
-			"the only non-false result is schnorr.Verify(sig←Sig, hash←ID bytes, key←Pubkey)",
-			"a possibly-true result is "+got+", want the Schnorr verdict "+wantCall)
+		okVal := got == wantCall
+		how := "the only non-false result is schnorr.Verify(sig←Sig, hash←ID bytes, key←Pubkey)"
+		cacheWhy := ""
+		if !okVal && isConstBool(r.Results[0], true) {
+			// the constant true behind the Schnorr verdict (`if !sig.Verify(…) { return false, nil }; …; return true, nil`),
+			// or behind a hit in a cache of exactly such verdicts
+			for _, g := range an.Guards(ver, rb) {
+				if !g.True {
+					continue
+				}
+				if an.PathOf(g.V) == wantCall {
+					okVal, how = true, "the constant true is returned only behind schnorr.Verify(sig←Sig, hash←ID bytes, key←Pubkey) == true"
+				}
+				if ok, why := verdictCacheHit(c, ver, g.V, wantCall); ok {
+					okVal, how = true, "the constant true is returned only behind a hit in a cache keyed by the full (ID, Pubkey, Sig) that is filled only behind schnorr.Verify == true for that very key"
+				} else if why != "" {
+					cacheWhy = " (a cache lookup guards it, but: " + why + ")"
+				}
+			}
+		}
+		c.Check(okVal, nil, fname(c, ver), "return#may-be-true/value", P.Pos(r.Pos()), how,
+			"a possibly-true result is "+got+", want the Schnorr verdict "+wantCall+cacheWhy)
 		// id equality edge-dominates this return
 		okEq := false
 		var seen []string
@@ -402,5 +421,146 @@ func runVer1(c *core.Ctx) {
 			"dominated by bytes.Equal(hex(ID), sha256(Serialize(ev))) over the whole values",
 			fmt.Sprintf("the possibly-true result is not dominated by the full comparison hex(ID) == sha256(Serialize(ev)); comparisons found: %v", seen))
 	}
-	c.Check(nTrue == 1, nil, fname(c, ver), "returns", P.Pos(ver.Pos()), "exactly one return can be true", fmt.Sprintf("%d returns can be true, want 1", nTrue))
+	c.Check(nTrue >= 1, nil, fname(c, ver), "returns", P.Pos(ver.Pos()), fmt.Sprintf("%d return(s) can be true, each one checked", nTrue), "no return of Verify can be true")
+}
+
+// verdictCacheHit: v is a membership test `ok(G.m[key])` of a package-level set G, read
+// through its own method, such that a hit can only mean "the Schnorr check wantCall
+// returned true for this very (ID, Pubkey, Sig)":
+//   - key is a struct of exactly the three whole strings recv.ID, recv.Pubkey, recv.Sig;
+//   - the map is a field of G's struct type that only methods of that type touch, and every
+//     insertion into it there uses the method's own parameter as the key;
+//   - every call of such an inserting method on G lies in Verify, passes the same key, and is
+//     dominated by wantCall == true;
+//   - G is assigned only by the package initialiser.
+//
+// why is non-empty when v looks like such a lookup but one of the conditions fails.
+func verdictCacheHit(c *core.Ctx, ver *ssa.Function, v ssa.Value, wantCall string) (bool, string) {
+	P := c.P
+	vp := an.PathOf(v)
+	if !strings.HasPrefix(vp, "ok(global:") || !strings.HasSuffix(vp, "])") {
+		return false, ""
+	}
+	inner := strings.TrimSuffix(strings.TrimPrefix(vp, "ok("), ")")
+	br := strings.Index(inner, "[")
+	if br < 0 {
+		return false, ""
+	}
+	mapPath, key := inner[:br], inner[br+1:len(inner)-1]
+	dot := strings.LastIndex(mapPath, ".")
+	if dot < 0 {
+		return false, ""
+	}
+	gname, mfield := strings.TrimPrefix(mapPath[:dot], "global:"), mapPath[dot+1:]
+	// the key: exactly the three strings
+	if !strings.HasPrefix(key, "lit{") || strings.Count(key, "=") != 3 || !strings.Contains(key, "=recv.ID") || !strings.Contains(key, "=recv.Pubkey") || !strings.Contains(key, "=recv.Sig") {
+		return false, "the key " + key + " is not the struct of exactly the whole ID, Pubkey and Sig"
+	}
+	for _, f := range []string{"=recv.ID", "=recv.Pubkey", "=recv.Sig"} {
+		i := strings.Index(key, f) + len(f)
+		if i < len(key) && key[i] != ',' && key[i] != '}' {
+			return false, "the key " + key + " uses a part of a field, not the whole string"
+		}
+	}
+	var G *ssa.Global
+	for _, m := range P.Root.Members {
+		if g, ok := m.(*ssa.Global); ok && g.Name() == gname {
+			G = g
+		}
+	}
+	if G == nil {
+		return false, "global " + gname + " not found"
+	}
+	// assigned only by the initialiser
+	for _, fn := range P.ModFuncs {
+		bad := false
+		an.Instrs(fn, func(in ssa.Instruction) {
+			if st, ok := in.(*ssa.Store); ok && st.Addr == ssa.Value(G) && fn.Name() != "init" {
+				bad = true
+			}
+		})
+		if bad {
+			return false, gname + " is reassigned in " + fname(c, fn)
+		}
+	}
+	// the set's struct type
+	t := G.Type().(*types.Pointer).Elem()
+	if p, ok := t.Underlying().(*types.Pointer); ok {
+		t = p.Elem()
+	}
+	named, _ := t.(*types.Named)
+	if named == nil {
+		return false, gname + " is not a named struct"
+	}
+	if o := named.Origin(); o != nil {
+		named = o
+	}
+	// who touches the map, and how it is filled
+	inserters := map[*ssa.Function]bool{}
+	why := ""
+	for _, fn := range P.ModFuncs {
+		an.Instrs(fn, func(in ssa.Instruction) {
+			fa, ok := in.(*ssa.FieldAddr)
+			if !ok {
+				return
+			}
+			n, st := structOf(fa)
+			if n == nil || n.Obj() != named.Obj() || an.FieldNameHook(st, fa.Field) != mfield || freshBase(fa) {
+				return
+			}
+			root := fn
+			for root.Parent() != nil {
+				root = root.Parent()
+			}
+			if recvNamed(root) != named.Obj() {
+				why = "the map " + mfield + " is also touched outside the set's own methods (" + fname(c, fn) + ")"
+			}
+		})
+		an.Instrs(fn, func(in ssa.Instruction) {
+			mu, ok := in.(*ssa.MapUpdate)
+			if !ok || an.PathOf(mu.Map) != "recv."+mfield || recvNamed(fn) != named.Obj() {
+				return
+			}
+			if _, isParam := an.Unwrap(mu.Key).(*ssa.Parameter); !isParam {
+				why = fname(c, fn) + " inserts a key other than its own parameter"
+			}
+			inserters[originOf(fn)] = true
+		})
+	}
+	if why != "" {
+		return false, why
+	}
+	if len(inserters) == 0 {
+		return false, "no method fills the set"
+	}
+	nAdd := 0
+	for _, fn := range P.ModFuncs {
+		for _, ci := range calls(fn) {
+			g := an.StaticCallee(ci.Common())
+			if g == nil || !inserters[originOf(g)] || len(ci.Common().Args) < 2 || an.PathOf(ci.Common().Args[0]) != "global:"+gname {
+				continue
+			}
+			nAdd++
+			call, isCall := ci.(*ssa.Call)
+			if !isCall || fn != ver {
+				return false, "the cache is also filled at " + P.Pos(ci.Pos()) + " (outside Verify, or deferred)"
+			}
+			if an.PathOf(call.Call.Args[1]) != key {
+				return false, "the cache is filled at " + P.Pos(ci.Pos()) + " under a different key than the one looked up"
+			}
+			verdict := false
+			for _, gd := range an.Guards(ver, call.Block()) {
+				if gd.True && an.PathOf(gd.V) == wantCall {
+					verdict = true
+				}
+			}
+			if !verdict {
+				return false, "the cache is filled at " + P.Pos(ci.Pos()) + " without the Schnorr verdict having been true for that key"
+			}
+		}
+	}
+	if nAdd == 0 {
+		return false, "the cache is never filled"
+	}
+	return true, ""
 }
